@@ -15,4 +15,8 @@ CLAIMS = {
         technique="TLA+ transcription of the varint format over digit sequences (Varint.tla); enumerated + TLC-generated inputs evaluated by the Go functions; every call judged by TLC (VarintTrace.tla)",
         text="Exhaustive for all 8-bit values and all byte strings up to length 2 in both tiers and for all 16-bit values in the thorough tier; boundary-exhaustive at every 7-bit group boundary for 32/64 bit plus seeded random numbers and byte strings. Each call's result and consumed-byte count must be in the set the model allows; panics are rejections.",
         note="Trusted: TLC and spec/Varint.tla as independent definition of the format; driver cmd/varintx converts uint64 to digit sequences. 32/64-bit ranges are sampled, not enumerated."),
+    "C01": dict(engine="tlc-interleave", level="model_checking", ref="DESIGN.md §4 C01",
+        technique="TLC exhaustive check of the implementation-shaped manager model (Lifecycle.tla, all DAGs) + its behaviours replayed as gate schedules into the real module manager + TLC trace validation against the property-level state machine (LifecycleAbs.tla)",
+        text="TLC explores every dependency DAG on 3 (thorough: 4) modules with every completion order, failure placement and Enable/Disable/ManageModules history within small budgets and checks start/stop/prep order, the online set after a successful pass and the post-shutdown state. Behaviours of that model drive the real modules package through callback gates (one process per script); every recorded begin/end/call/return event is validated by TLC against LifecycleAbs, which accepts any order compatible with the dependency graph, so only a real ordering/accounting violation is reported.",
+        note="Trusted: TLC, the gate driver harness/cmd/life, callbacks return when released (timeouts of 2 min/1 min never expire), Enable/Disable only between manager calls. Conformance on the explored schedules, not a proof."),
 }
